@@ -55,7 +55,11 @@ pub struct Observed {
 
 /// read the whole input the way build_struct does: every frame that is open when Eof arrives reads Eof again
 pub fn observe(bytes: &[u8], cfg: &ReaderCfg) -> Observed {
-    let mut reader = Reader::from_reader(bytes);
+    observe_reader(Reader::from_reader(bytes), cfg)
+}
+
+/// the same pass over any buffered source (e.g. one that fails with an I/O error at some offset)
+pub fn observe_reader<R: std::io::BufRead>(mut reader: Reader<R>, cfg: &ReaderCfg) -> Observed {
     configure(&mut reader, cfg);
     let mut buf = Vec::new();
     let mut events = Vec::new();
